@@ -312,8 +312,14 @@ async fn exec_inner(t: Trace) -> Outcome {
         }
         if tick_no % 7 == 0 {
             wit_tok += 1;
-            let tok = format!("w{}", wit_tok);
-            w.apply(&Action::line(wit, &format!("PING {}", tok))).await;
+            // every form of a client PING: the PONG carries the token (the first parameter), whatever follows it
+            let (tok, line) = match wit_tok % 4 {
+                0 => (format!("w{}", wit_tok), format!("PING w{}", wit_tok)),
+                1 => (format!("w{}", wit_tok), format!("PING w{} irc.sim", wit_tok)),
+                2 => (format!("w{}", wit_tok), format!("PING w{} :other server", wit_tok)),
+                _ => (format!("w{} sp", wit_tok), format!("PING :w{} sp", wit_tok)),
+            };
+            w.apply(&Action::line(wit, &line)).await;
             wit_expect = Some(tok);
         }
         // subjects
